@@ -4,26 +4,29 @@ package stats
 
 import (
 	"bytes"
+	"context"
 	"encoding/json"
 	"fmt"
 	"go/ast"
 	"go/parser"
 	"go/token"
+	"log/slog"
 	"math/rand/v2"
 	"net/http"
 	"net/http/httptest"
 	"os"
+	"os/signal"
 	"path/filepath"
 	"sort"
 	"strconv"
 	"strings"
 	"sync"
 	"sync/atomic"
+	"syscall"
 	"testing"
 	"time"
 
 	"github.com/AdguardTeam/AdGuardHome/internal/vutil"
-	"github.com/AdguardTeam/golibs/logutil/slogutil"
 	"go.etcd.io/bbolt"
 )
 
@@ -32,7 +35,38 @@ type c09Ctx struct {
 	s     *StatsCtx
 	dir   string
 	clock atomic.Uint32
+	hook  *c09Hook
 }
+
+// c09Hook lets a harness op stall the implementation at a log call (the
+// logger is part of Config, so no source is touched): when armed, the first
+// record with the given message signals `reached` and waits for `release`.
+type c09Hook struct {
+	armed   atomic.Bool
+	msg     atomic.Value
+	reached chan struct{}
+	release chan struct{}
+}
+
+func newC09Hook() *c09Hook {
+	return &c09Hook{reached: make(chan struct{}), release: make(chan struct{})}
+}
+
+type c09Handler struct{ h *c09Hook }
+
+func (x c09Handler) Enabled(context.Context, slog.Level) bool { return x.h.armed.Load() }
+
+func (x c09Handler) Handle(_ context.Context, r slog.Record) error {
+	if want, _ := x.h.msg.Load().(string); r.Message == want && x.h.armed.CompareAndSwap(true, false) {
+		x.h.reached <- struct{}{}
+		<-x.h.release
+	}
+
+	return nil
+}
+
+func (x c09Handler) WithAttrs([]slog.Attr) slog.Handler { return x }
+func (x c09Handler) WithGroup(string) slog.Handler      { return x }
 
 var c09 *c09Ctx
 
@@ -50,8 +84,12 @@ func c09TempDir() string {
 }
 
 func (c *c09Ctx) conf(limitMs int64, enabled bool) Config {
+	if c.hook == nil {
+		c.hook = newC09Hook()
+	}
+
 	return Config{
-		Logger:            slogutil.NewDiscardLogger(),
+		Logger:            slog.New(c09Handler{h: c.hook}),
 		UnitID:            func() uint32 { return c.clock.Load() },
 		ConfigModified:    func() {},
 		ShouldCountClient: func([]string) bool { return true },
@@ -232,6 +270,9 @@ func c09Run(f []string) []string {
 	if op == "C09.locks" {
 		return c09LockFacts()
 	}
+	if op == "C09.top" {
+		return c09Top(f)
+	}
 	if op == "C09.reset" {
 		c09Drop()
 		c := &c09Ctx{dir: c09TempDir()}
@@ -314,6 +355,64 @@ func c09Run(f []string) []string {
 		return c.observe(true, 0)
 	case "C09.read":
 		return c.observe(false, 0)
+	case "C09.tickfail":
+		// the hourly flush while every write to a file fails (RLIMIT_FSIZE = 0):
+		// bbolt cannot commit the transaction of flushDB
+		signal.Ignore(syscall.SIGXFSZ)
+		var old syscall.Rlimit
+		if err := syscall.Getrlimit(syscall.RLIMIT_FSIZE, &old); err != nil {
+			panic(err)
+		}
+		if err := syscall.Setrlimit(syscall.RLIMIT_FSIZE, &syscall.Rlimit{Cur: 0, Max: old.Max}); err != nil {
+			panic(err)
+		}
+		c.clock.Store(c09U32(f[1]))
+		c.s.flush()
+		if err := syscall.Setrlimit(syscall.RLIMIT_FSIZE, &old); err != nil {
+			panic(err)
+		}
+
+		return c.observe(true, 0)
+	case "C09.readinreset":
+		// GET /control/stats while POST /control/stats_reset is inside clear()
+		// between db.Swap(nil) and openDB: clear() is stalled at db.Begin(true)
+		// by a write transaction held here
+		db := c.s.db.Load()
+		tx, err := db.Begin(true)
+		if err != nil {
+			panic(err)
+		}
+		done := make(chan struct{})
+		go func() {
+			defer close(done)
+			c.httpDo(c.s.handleStatsReset, http.MethodPost, "")
+		}()
+		for c.s.db.Load() != nil {
+			time.Sleep(50 * time.Microsecond)
+		}
+		mid := c.read()
+		_ = tx.Rollback()
+		<-done
+
+		return append([]string{"mid=" + mid[0]}, c.observe(true, 0)...)
+	case "C09.resetrace":
+		// POST /control/stats_reset racing with the hourly flush: clear() is
+		// stalled right after it has opened the new file (at its "database
+		// opened" log line), the flush runs, clear() continues
+		c.clock.Store(c09U32(f[1]))
+		c.hook.msg.Store("database opened")
+		c.hook.armed.Store(true)
+		done := make(chan struct{})
+		go func() {
+			defer close(done)
+			c.httpDo(c.s.handleStatsReset, http.MethodPost, "")
+		}()
+		<-c.hook.reached
+		c.s.flush()
+		c.hook.release <- struct{}{}
+		<-done
+
+		return c.observe(true, 0)
 	default:
 		panic("unknown op " + op)
 	}
@@ -495,6 +594,15 @@ func c09GenResult(r *rand.Rand) int {
 func c09Gen(r *rand.Rand, emit vutil.Emit) {
 	n := vutil.N(2000)
 	emit("C09.locks")
+	for i := 0; i < n/10+5; i++ {
+		cnt := 1 + r.IntN(300)
+		if i%4 == 0 {
+			cnt = 500 + r.IntN(2500)
+		}
+		emit("C09.top", vutil.Itoa(r.IntN(1<<30)), vutil.Itoa(cnt),
+			vutil.Itoa(vutil.Pick(r, []int{1, 3, 50, 99, 100, 101, 130, 400})),
+			vutil.Itoa(vutil.Pick(r, []int{1, 5, 100, 101, 250})))
+	}
 	for b := 0; b < n; b++ {
 		base, inDom := c09GenBase(r)
 		limMs := c09GenLimit(r)
@@ -618,6 +726,8 @@ var c09Watched = map[string]bool{
 	"deserialize": true, "clear": true, "setLimit": true, "dataFromUnits": true,
 }
 
+var c09WatchedFields = map[string]bool{"curr": true, "limit": true, "enabled": true}
+
 // c09WalkStmts records, for every watched call and every assignment to s.curr,
 // which locks were taken (Lock immediately followed by the deferred Unlock) in
 // the enclosing statement lists before it.
@@ -650,9 +760,9 @@ func c09WalkStmts(fn string, stmts []ast.Stmt, held []string, out *[]string) {
 				return false
 			case *ast.AssignStmt:
 				for _, lhs := range x.Lhs {
-					if sel, ok := lhs.(*ast.SelectorExpr); ok && sel.Sel.Name == "curr" {
+					if sel, ok := lhs.(*ast.SelectorExpr); ok && c09WatchedFields[sel.Sel.Name] {
 						if id, isID := sel.X.(*ast.Ident); isID && id.Name == "s" {
-							*out = append(*out, "set:curr@"+fn+":"+c09Held(held))
+							*out = append(*out, "set:"+sel.Sel.Name+"@"+fn+":"+c09Held(held))
 						}
 					}
 				}
@@ -705,4 +815,69 @@ func c09LockFacts() []string {
 	}
 
 	return append([]string{strconv.Itoa(len(res))}, res...)
+}
+
+// ---- per-name maps and top-N truncation ----
+
+func c09LCG(x uint64) uint64 { return (x*1103515245 + 12345) % 2147483648 }
+
+func c09PickName(v, k uint64) uint64 {
+	if (v/7)%2 == 0 {
+		return (v / 16) % (k/8 + 1)
+	}
+
+	return (v / 16) % k
+}
+
+func c09SumMap(m map[string]uint64) (sum uint64) {
+	for _, v := range m {
+		sum += v
+	}
+
+	return sum
+}
+
+func c09SumPairs(a []countPair) (sum, minCount uint64) {
+	for i, p := range a {
+		sum += p.Count
+		if i == 0 || p.Count < minCount {
+			minCount = p.Count
+		}
+	}
+
+	return sum, minCount
+}
+
+// c09Top: a burst of accepted entries on a fresh unit through the real add,
+// serialize and deserialize.
+func c09Top(f []string) []string {
+	x := uint64(c09I64(f[1]))
+	n, nc, nd := vutil.Atoi(f[2]), uint64(vutil.Atoi(f[3])), uint64(vutil.Atoi(f[4]))
+	u := newUnit(1)
+	for i := 0; i < n; i++ {
+		x1 := c09LCG(x)
+		x2 := c09LCG(x1)
+		x3 := c09LCG(x2)
+		x = x3
+		u.add(&Entry{
+			Result: Result((x1/16)%5 + 1),
+			Domain: "d" + strconv.FormatUint(c09PickName(x2, nd), 10),
+			Client: "c" + strconv.FormatUint(c09PickName(x3, nc), 10),
+		})
+	}
+	udb := u.serialize()
+	u2 := newUnit(1)
+	u2.deserialize(udb)
+	sc, minC := c09SumPairs(udb.Clients)
+	sd, _ := c09SumPairs(udb.Domains)
+	sb, _ := c09SumPairs(udb.BlockedDomains)
+	u64 := func(v uint64) string { return strconv.FormatUint(v, 10) }
+
+	return []string{u64(u.nTotal), c09Counters(u.nResult),
+		vutil.Itoa(len(u.clients)), u64(c09SumMap(u.clients)),
+		vutil.Itoa(len(u.domains)), u64(c09SumMap(u.domains)),
+		vutil.Itoa(len(u.blockedDomains)), u64(c09SumMap(u.blockedDomains)),
+		vutil.Itoa(len(udb.Clients)), u64(sc), u64(minC),
+		vutil.Itoa(len(udb.Domains)), u64(sd), vutil.Itoa(len(udb.BlockedDomains)), u64(sb),
+		u64(c09SumMap(u2.clients))}
 }
